@@ -475,6 +475,80 @@ def import_side_effects(ctx):
                       {'import_side_effects': True, 'before': res['before'], 'after': res['after']})
 
 
+def skipped_helper_operations(ctx):
+    """A recorded operation whose body calls ANOTHER decorated operation of a class that is excluded from recording (skipped=True):
+    the helper is pure pass-through wherever it is called from - the twin decides what it returns / raises and how often it runs."""
+    import random as _r
+    progs = fr.base_programs(ctx.seed + 911, 6 if ctx.quick else 40)
+    for pi, prog in enumerate(progs):
+        raises = pi % 3 == 2
+        prog['inner_prog'] = {'seed_world': 7, 'class_level': pi % 2 == 1, 'extractor': None, 'params': {'skipped': True},
+                              'inputs': [], 'outputs': [], 'opts': {'raise_rate': 0.0}, 'uid': prog.get('uid', 0) + 900000,
+                              'body': [{'op': 'raise', 'exc': 'KeyError'}] if raises else [{'op': 'return', 'expr': {'lit': 'helper-result-%d' % pi}}]}
+        body = prog['body']
+        last = len(body) - (1 if body and body[-1]['op'] in ('return', 'raise') else 0)
+        for _ in range(1 + pi % 2):
+            body.insert(_r.Random(pi).randrange(last + 1), {'op': 'inner_op'})
+        for ci, cfg in enumerate([{}, {'kind': 'file'}, {'rate': 0.5}, {'enabled': False}]):
+            res = fr.execute(prog, {}, **cfg)
+            try:
+                w = {'skipped_helpers': True, 'gen_seed': prog['gen_seed'], 'program': describe(prog), 'config': cfg}
+                ctx.case({'skipped_helper': pi, 'c': ci})
+                ctx.count('calls_compared', compare_with_twin(ctx, res, w))
+                d = [e['outcome'] for e in res.live.journal.events if e['ev'] == 'inner_op']
+                t = [e['outcome'] for e in res.twin.journal.events if e['ev'] == 'inner_op']
+                ctx.count('skipped_helper_operations_called_inside_recorded_ones', len(d))
+                if d != t:
+                    ctx.violation('an operation of a class excluded from recording, called inside a recorded operation, ended differently from the twin: %r vs %r' % (d, t), w)
+                db = [e for e in res.live.journal.events if e['ev'] == 'op_body']
+                tb = [e for e in res.twin.journal.events if e['ev'] == 'op_body']
+                if len(db) != len(tb):
+                    ctx.violation('operation bodies executed %d times, in the twin %d times' % (len(db), len(tb)), w)
+            finally:
+                fr.close(res)
+
+
+def storage_location_lost(ctx):
+    """File cassette whose directory is lost AFTER the cassette was built (the volume went away, a cleaner replaced the directory by a
+    file, a dangling link, only the directory removed): recordings cannot be stored any more, the recorded service must not notice."""
+    import os
+    import shutil
+    import tempfile
+    from playback.tape_recorder import TapeRecorder
+    from playback.tape_cassettes.file_based.file_based_tape_cassette import FileBasedTapeCassette
+    from vlib.spies import SpyCassette, SpyRandom
+    progs = fr.base_programs(ctx.seed + 613, 3 if ctx.quick else 16)
+    for pi, prog in enumerate(progs):
+        for how in ('parent_removed', 'replaced_by_a_file', 'dangling_link', 'directory_removed', 'lost_between_two_operations'):
+            d0 = tempfile.mkdtemp(prefix='vp-lostdir-')
+            try:
+                d = os.path.join(d0, 'volume', 'recordings')
+                os.makedirs(os.path.dirname(d))
+                spy = SpyCassette(FileBasedTapeCassette(d))
+                rec = TapeRecorder(spy)
+                rec._random = SpyRandom(5)
+                rec.enable_recording()
+                w = {'storage_location_lost': how, 'gen_seed': prog['gen_seed'], 'program': describe(prog)}
+                if how == 'lost_between_two_operations':
+                    ctx.count('calls_compared', compare_with_twin(ctx, fr.execute(prog, {}, recorder=rec, spy=spy, box=None), w))
+                if how in ('parent_removed', 'lost_between_two_operations'):
+                    shutil.rmtree(os.path.dirname(d))
+                else:
+                    shutil.rmtree(d)
+                    if how == 'replaced_by_a_file':
+                        with open(d, 'w') as f:
+                            f.write('not a directory')
+                    elif how == 'dangling_link':
+                        os.symlink(os.path.join(d0, 'gone'), d)
+                for _ in range(2):
+                    res = fr.execute(prog, {}, recorder=rec, spy=spy, box=None)
+                    ctx.case({'lost_dir': how, 'p': pi})
+                    ctx.count('runs_after_the_storage_location_was_lost')
+                    ctx.count('calls_compared', compare_with_twin(ctx, res, w))
+            finally:
+                shutil.rmtree(d0, ignore_errors=True)
+
+
 def async_dead_flusher(ctx):
     """Asynchronous cassette whose background thread is gone (killed by a storage error that derives from BaseException; the same
     state a worker forked from a pre-fork master is in): recordings are lost, the recorded service must not notice."""
@@ -528,6 +602,8 @@ def run(ctx):
         interrupt_while_the_framework_works(ctx)
         callable_objects_part(ctx)
         import_side_effects(ctx)
+        skipped_helper_operations(ctx)
+        storage_location_lost(ctx)
     try:
         from checks import C04_sched
     except ImportError:
@@ -539,6 +615,10 @@ def run(ctx):
 
 
 def replay(ctx, w):
+    if w.get('skipped_helpers'):
+        return skipped_helper_operations(ctx)
+    if w.get('storage_location_lost'):
+        return storage_location_lost(ctx)
     if w.get('callable_objects'):
         return callable_objects_part(ctx)
     if w.get('import_side_effects'):
